@@ -215,6 +215,7 @@ def run(ctx):
       break
   representations(ctx, 60 if thorough else 12)
   returned_arrays_are_private(ctx, 24 if thorough else 6)
+  mc.container_lane(ctx, 12 if thorough else 3, 'containers')
 
 
 def replay(payload):
